@@ -152,7 +152,9 @@ class Program:
 
                         t2 = Table(pd.DataFrame(a).copy(), name="conflict", units=["zz" if a[c].dtype.kind in "if" else
                                    {"b": "onoff"}.get(a[c].dtype.kind, "text") for c in cols],
-                                   origin=TableOrigin(input_location=NullLocationFile("c").make_location_sheet().make_location_block(999)))
+                                   origin=TableOrigin(input_location=NullLocationFile("c").make_location_sheet().make_location_block(999)),
+                                   # the refusal must not depend on how strictly the other frame checks its own types
+                                   **({"strict_types": False} if op["k"] % 2 else {}))
                         other = t2.df
                         del F.FIN_LOG[:]
                         self.prog.append((["ANew", self.key(other), "conflict", ["all"],
